@@ -226,7 +226,7 @@ def count_nodes(v):
 
 def elem_depth(v):
     def node(n):
-        if n["t"] == "tuple" and any(f["nm"] == "name" for f in n["fs"]):
+        if n["t"] == "tuple" and any(f["nm"] == "name" for f in n["fs"]) and not any(f["nm"] == "text" for f in n["fs"]):
             d = 0
             for f in n["fs"]:
                 if f["nm"] == "children" and f["val"]["t"] == "list":
@@ -393,7 +393,10 @@ def el_mismatch(pe, xe, rf, where="/"):
     kids = xe.kids
     for pk in pe["kids"]:
         if pk["k"] == "text":
-            text = "".join(alter(rf.s(s["sc"], tuple(s["at"])), s["via"]) for s in pk["segs"])
+            # an alteration applies to the run as written (CR LF may straddle two described segments)
+            text = "".join(rf.s(s["sc"], tuple(s["at"])) for s in pk["segs"])
+            for via in sorted(set(s["via"] for s in pk["segs"])):
+                text = alter(text, via)
             if j >= len(kids) or not isinstance(kids[j], str):
                 return "%s: text %r missing (child %d)" % (here, text, j)
             if kids[j] != text:
@@ -444,7 +447,11 @@ MALFORMED_FEATURES = [f for f in ALL_FEATURES
                           "attrs:intattrs", "ch:str", "ch:tuple", "ch:int", "ver:v20", "ver:int", "enc:int")]
 
 
+CFG_FEATURES = {}      # configuration name -> the features it enables
+
+
 def write_cfg(gd, name, depth, kids, nodes, rare, core, rare_pool, invariants, deviations=()):
+    CFG_FEATURES[name] = sorted(set(core) | (set(rare_pool) if rare > 0 else set()))
     q = lambda xs: "{" + ", ".join('"%s"' % x for x in xs) + "}"
     for f in list(core) + list(rare_pool):
         if f not in ALL_FEATURES:
